@@ -448,7 +448,7 @@ Proof.
 Qed.
 
 (* a candidate equal to the true tick or its successor is corrected to the true tick *)
-Lemma select_complete s t c : -12 * G <= t < 38 * G -> sqrt_of t <= s < sqrt_of (t + 1) ->
+Lemma select_complete s t c : -12 * G - 1 <= t < 38 * G -> sqrt_of t <= s < sqrt_of (t + 1) ->
   c = t \/ c = t + 1 -> select s c = Ok t.
 Proof.
   intros Ht Hs Hc. unfold select. consts. rewrite Hc3_, Hc4_, Hc2_. unfold G in *.
@@ -544,7 +544,7 @@ Proof.
   pose proof (price_of_pos t ltac:(unfold G in *; lia)).
   rewrite bd_fits_small by (split; [lia|]; eapply Z.le_lt_trans; [apply Hp74|]; vm_compute; reflexivity).
   cbn [negb].
-  destruct (candidate t (bd_mul s s) Ht Hp) as [Hc|Hc]; rewrite Hc; apply select_complete; auto.
+  destruct (candidate t (bd_mul s s) Ht Hp) as [Hc|Hc]; rewrite Hc; (apply select_complete; [lia|exact Hs|auto]).
 Qed.
 
 Lemma sqrt_price_to_tick_top : calculate_sqrt_price_to_tick (sqrt_of (38 * G)) = Ok (38 * G).
@@ -555,4 +555,68 @@ Proof.
   intros Ht. destruct (Z.eq_dec t (38 * G)) as [->|N]; [apply sqrt_price_to_tick_top|].
   apply sqrt_price_to_tick_bucket; [lia|]. split; [lia|].
   apply sqrt_of_strict_mono; unfold G in *; lia.
+Qed.
+
+(** * The bucket of MinCurrentTick = MinInitializedTick - 1 (its lower edge is a 36-digit root) *)
+Lemma candidate_min_current p : price_of (-12 * G - 1) <= p <= 10 ^ 24 ->
+  calculate_price_to_tick p = Ok (-12 * G - 1) \/ calculate_price_to_tick p = Ok (-12 * G).
+Proof.
+  intros Hp. assert (Pv : price_of (-12 * G - 1) = 9999999 * 10 ^ 17) by (vm_compute; reflexivity).
+  rewrite Pv in Hp.
+  destruct (Z.eq_dec p (10 ^ 24)) as [->|N]; [right; vm_compute; reflexivity|left].
+  destruct price_consts_val as (Hmax & Hminb & Hmin).
+  rewrite calculate_price_to_tick_unfold. rewrite Hmax, Hminb, Hmin.
+  tf (p <? 0) false. tf (p >? 10 ^ 74) false. tf (p <? 10 ^ 6) false. cbn [orb].
+  assert (HP : P36 = 10 ^ 36) by reflexivity.
+  tf (p =? P36) false. tf (p >=? 10 ^ 24) false. cbv zeta. tf (p >? P36) false.
+  destruct (search_down_spec p ltac:(lia) 29%nat (-1) 400%nat eq_refl ltac:(lia) ltac:(lia) ltac:(change (37 + -1) with 36; lia))
+    as (j & Hj & Hr & Hb).
+  assert (j = -13).
+  { destruct (Z_le_gt_dec j (-14)).
+    - assert (10 ^ (37 + j) <= 10 ^ 23) by (apply pow10_le; lia). lia.
+    - destruct (Z_le_gt_dec j (-13)); [lia|].
+      assert (10 ^ 24 <= 10 ^ (36 + j)) by (apply pow10_le; lia). lia. }
+  subst j. rewrite Hj.
+  destruct (core_spec p (-13) ltac:(lia) Hb) as (HF & ti & Hcore & Hti). cbv zeta in *.
+  change (30 + -13) with 17 in *. rewrite Hcore.
+  assert (EF : (p - 10 ^ 6 * 10 ^ 17) / 10 ^ 17 = 8999999).
+  { symmetry. apply (Z.div_unique _ _ _ (p - 9999999 * 10 ^ 17)); lia. }
+  rewrite EF in Hti. destruct Hti as [->|[-> Hbump]]; [f_equal; unfold G; lia|exfalso].
+  change (42 - -13) with 55 in Hbump. assert (1 <= (8999999 + 1) * 10 ^ 17 - (p - 10 ^ 6 * 10 ^ 17)) by lia.
+  assert (10 ^ 55 <= ((8999999 + 1) * 10 ^ 17 - (p - 10 ^ 6 * 10 ^ 17)) * 10 ^ 55) by lia. lia.
+Qed.
+
+Lemma sqrt_price_to_tick_bucket_min_current s :
+  sqrt_of (-12 * G - 1) <= s < sqrt_of (-12 * G) -> calculate_sqrt_price_to_tick s = Ok (-12 * G - 1).
+Proof.
+  intros Hs. rewrite calculate_sqrt_price_to_tick_unfold. cbv zeta.
+  assert (E1 : sqrt_of (-12 * G) = 10 ^ 30) by (vm_compute; reflexivity).
+  assert (E0 : sqrt_of (-12 * G - 1) = sqrt_ceil (price_of (-12 * G - 1) * P36)) by reflexivity.
+  assert (Pv : 0 < price_of (-12 * G - 1)) by (vm_compute; reflexivity).
+  assert (HP36 : 0 < P36) by (vm_compute; reflexivity).
+  pose proof (sqrt_ceil_sq_ge (price_of (-12 * G - 1) * P36) ltac:(nia)) as Hsq.
+  pose proof (sqrt_ceil_nonneg (price_of (-12 * G - 1) * P36) ltac:(nia)) as Hn.
+  rewrite E1, E0 in Hs. set (R := sqrt_ceil (price_of (-12 * G - 1) * P36)) in *.
+  assert (Hp : price_of (-12 * G - 1) <= bd_mul s s <= 10 ^ 24).
+  { unfold bd_mul. split.
+    - apply chop_round_lower; [exact HP36|reflexivity|nia|]. nia.
+    - apply chop_round_upper; [exact HP36|reflexivity|nia|].
+      change (10 ^ 24 * P36) with (10 ^ 30 * 10 ^ 30). nia. }
+  rewrite bd_fits_small by (split; [lia|]; eapply Z.le_lt_trans; [apply Hp|]; vm_compute; reflexivity).
+  cbn [negb].
+  assert (Hb : sqrt_of (-12 * G - 1) <= s < sqrt_of (-12 * G - 1 + 1)).
+  { rewrite E0. replace (-12 * G - 1 + 1) with (-12 * G) by lia. rewrite E1. lia. }
+  destruct (candidate_min_current _ Hp) as [Hc|Hc]; rewrite Hc;
+    (apply select_complete; [unfold G; lia|exact Hb|lia]).
+Qed.
+
+(** * CalculatePriceToTick rejects prices outside [MinSpotPriceV2, MaxSpotPrice] *)
+Lemma price_to_tick_rejects p :
+  (p < 0 -> calculate_price_to_tick p = Err ENegPrice) /\
+  (0 <= p < MinSpotPriceV2 \/ MaxSpotPriceBigDec < p -> calculate_price_to_tick p = Err EPriceBound).
+Proof.
+  rewrite calculate_price_to_tick_unfold. split; intros H.
+  - tf (p <? 0) true. reflexivity.
+  - destruct price_consts_val as (Hmax & _ & Hmin). rewrite Hmax, Hmin in *. tf (p <? 0) false.
+    destruct H as [H|H]; [tf (p <? 10 ^ 6) true; rewrite orb_true_r|tf (p >? 10 ^ 74) true]; reflexivity.
 Qed.
